@@ -96,29 +96,53 @@ func (i *miter) Release()      {}
 func (i *miter) Error() error  { return nil }
 
 type ectx struct {
-	st *mstore
-	ov *overlaydb.OverlayDB
+	st    *mstore
+	ov    *overlaydb.OverlayDB
+	cache *storage.CacheDB
+	dirty bool // the overlay holds a write set (it does only after a successful transaction)
 }
 
+// A fixed free list (not a sync.Pool: the 4 MiB OverlayDB buffers must survive garbage collections, re-allocating them
+// dominated the run time). OverlayDB.Reset / CacheDB.Reset are the production reset calls used between transactions.
 var (
-	pool = sync.Pool{New: func() any {
-		s := &mstore{}
-		return &ectx{st: s, ov: overlaydb.NewOverlayDB(s)}
-	}}
+	free   = make(chan *ectx, 64)
 	ssOnce sync.Once
 	ss     *ledgerstore.StateStore
 )
+
+func getCtx() *ectx {
+	select {
+	case c := <-free:
+		return c
+	default:
+		s := &mstore{}
+		ov := overlaydb.NewOverlayDB(s)
+		return &ectx{st: s, ov: ov, cache: storage.NewCacheDB(ov)}
+	}
+}
+
+func putCtx(c *ectx) {
+	c.st.m = nil
+	select {
+	case free <- c:
+	default:
+	}
+}
 
 // Exec: one transaction as a one-transaction block through the production path; the write set is applied to the
 // map only when the transaction succeeded (a failed transaction leaves no CacheDB commit, hence an empty write set).
 func (w *World) Exec(tx *types.Transaction, height, timestamp uint32) (res polyenv.Result) {
 	ssOnce.Do(func() { ss = ledgerstore.NewMemStateStore(0) })
-	c := pool.Get().(*ectx)
-	defer func() { c.st.m = nil; pool.Put(c) }()
+	c := getCtx()
+	defer putCtx(c)
 	c.st.m = w.M
-	c.ov.Reset()
+	if c.dirty { // an untouched overlay needs no reset (MemDB.Reset re-seeds a math/rand source: ~25us)
+		c.ov.Reset()
+		c.dirty = false
+	}
 	c.ov.SetError(nil)
-	cache := storage.NewCacheDB(c.ov)
+	c.cache.Reset()
+	cache := c.cache
 	block := polyenv.BlockCtx(height, timestamp)
 	notify := &event.ExecuteNotify{TxHash: tx.Hash(), State: event.CONTRACT_STATE_FAIL}
 	res.Notify = notify
@@ -132,10 +156,15 @@ func (w *World) Exec(tx *types.Transaction, height, timestamp uint32) (res polye
 		res.CrossHashes, res.Err = ss.HandleInvokeTransaction(nil, c.ov, cache, tx, block, notify)
 	}()
 	if c.ov.Error() != nil {
+		c.dirty = true
 		res.Err = fmt.Errorf("overlay error: %v", c.ov.Error())
 		return
 	}
 	res.OK = res.Err == nil
+	c.dirty = true
+	if !res.OK && c.ov.GetWriteSet().Len() == 0 {
+		c.dirty = false
+	}
 	c.ov.GetWriteSet().ForEach(func(k, v []byte) {
 		res.WriteSet = append(res.WriteSet, polyenv.KV{K: string(k), V: string(v)})
 	})
